@@ -526,6 +526,35 @@ fn def_method_impl(
                         quote!()
                     };
 
+                    // `self` has been moved into the surrogate at this point,
+                    // so the unmock call must go through the surrogate as well.
+                    let unmock_input_eval_arm = attr.get_unmock_fn(index).map(
+                        |UnmockFn {
+                             path: unmock_path,
+                             params: unmock_params,
+                         }| {
+                            let self_expr = quote! { #self_to_delegator };
+                            let unmock_expr = match unmock_params {
+                                None => quote! {
+                                    #unmock_path(#self_expr, #fn_params) #opt_dot_await
+                                },
+                                Some(UnmockFnParams { params }) => {
+                                    let params =
+                                        replace_self_value(params.to_token_stream(), &self_expr);
+                                    quote! {
+                                        #unmock_path(#params) #opt_dot_await
+                                    }
+                                }
+                            };
+
+                            quote! {
+                                #prefix::private::Continuation::Unmock => {
+                                    #unmock_expr
+                                }
+                            }
+                        },
+                    );
+
                     quote! {
                         let (__cont, #eval_pattern_all) = #prefix::polonius::_polonius!(|#self_ref| -> #polonius_return_type {
                             match #prefix::private::eval::<#mock_fn_path #eval_generic_args>(#self_ref, #inputs_eval_params) {
@@ -538,6 +567,7 @@ fn def_method_impl(
                                 __answer_fn(__self, #fn_params)
                             }
                             #default_impl_input_eval_arm
+                            #unmock_input_eval_arm
                             cont => cont.report(__self)
                         }
                     }
@@ -658,6 +688,30 @@ fn def_method_impl(
             #body
         }
     }
+}
+
+/// Replace the `self` value keyword in a token stream with the given expression.
+fn replace_self_value(
+    tokens: proc_macro2::TokenStream,
+    replacement: &proc_macro2::TokenStream,
+) -> proc_macro2::TokenStream {
+    tokens
+        .into_iter()
+        .flat_map(|token_tree| match token_tree {
+            proc_macro2::TokenTree::Ident(ident) if ident == "self" => {
+                replacement.clone().into_iter().collect::<Vec<_>>()
+            }
+            proc_macro2::TokenTree::Group(group) => {
+                let mut new_group = proc_macro2::Group::new(
+                    group.delimiter(),
+                    replace_self_value(group.stream(), replacement),
+                );
+                new_group.set_span(group.span());
+                vec![proc_macro2::TokenTree::Group(new_group)]
+            }
+            other => vec![other],
+        })
+        .collect()
 }
 
 fn prefix_with_span(prefix: &syn::Path, span: proc_macro2::Span) -> syn::Path {
